@@ -44,6 +44,13 @@ PAIRS: list[tuple[str, list[str]]] = [
     ("autolink", ["<http://u/qza>"]),
     ("long-tag", ['{% qza qzb="qzc qzd" qze=1 %}']),
     ("multi-bt", ["``qza ` qzb``"]),
+    # "+" between two entries: adjacent in the source (no space), not a paired open/close
+    ("tag+tag", ["{% qza %}", "+", "{% qzb %}"]),
+    ("comment+comment", ["<!-- qza -->", "+", "<!-- qzb -->"]),
+    ("comment+comment+comment", ["<!-- qza -->", "+", "<!-- .qzb -->", "+", "<!-- #qzc -->"]),
+    ("var+var", ["{{ qza }}", "+", "{{ qzb }}"]),
+    ("jcomment+jcomment", ["{# qza #}", "+", "{# qzb #}"]),
+    ("close+open", ["{% /qza %}", "+", "{% qzb %}"]),
 ]
 
 TAGBLOCKS: list[tuple[str, str, str]] = [
@@ -75,9 +82,16 @@ def cases(tier: str) -> list[dict[str, Any]]:
         for name, ws in singles + PAIRS:
             for pos in (range(0, n + 1) if th else (0, 1, n)):
                 words = V.toks(n)
-                words = words[:pos] + ws + words[pos:]
+                glued = []
+                ws2 = []
+                for w in ws:
+                    if w == "+":
+                        glued.append(pos + len(ws2) - 1)
+                    else:
+                        ws2.append(w)
+                words = words[:pos] + ws2 + words[pos:]
                 for sem in (False, True):
-                    cs.append(dict(key=f"para/{ctx}/{name}@{pos}/{'sem' if sem else 'fill'}", kind="para", fam="atom", special=name, ctx=ctx, words=words, sem=sem))
+                    cs.append(dict(key=f"para/{ctx}/{name}@{pos}/{'sem' if sem else 'fill'}", kind="para", fam="atom", special=name, ctx=ctx, words=words, glued=glued, sem=sem))
     # construct separated from the next by a newline in the source (kept for tags, reflowed for others)
     for ctx in (["top", "bullet", "quote"] if th else ["top", "bullet"]):
         for name, ws in [("tag", ["{% qza %}"]), ("comment", ["<!-- qza -->"]), ("code", ["`qza qzb`"]), ("link", ["[qza qzb](u)"])]:
@@ -107,7 +121,9 @@ def run(env: Any, case: dict[str, Any]) -> Any:
     if case["kind"] == "para":
         ctx = K.CONTEXTS[case["ctx"]]
         words = [env.text(w) for w in case["words"]]
-        plines = [env.text(p) for p in case.get("plines", [" ".join(case["words"])])]
+        glued = set(case.get("glued") or [])
+        src = "".join(w + ("" if i in glued else " ") for i, w in enumerate(case["words"])).rstrip(" ")
+        plines = [env.text(p) for p in case.get("plines", [src])]
         doc = env.text(K.embed(ctx, plines))
         out = reformat_text(doc, width=W, semantic=case["sem"], cleanups=False)
         lines = K.para_lines_of(ctx, out)
@@ -119,7 +135,7 @@ def run(env: Any, case: dict[str, Any]) -> Any:
             # index of the last word of the first source line within `words`
             breaks = {len(case["words"]) - 2 - 1: "soft"}
         try:
-            WC.read_lines(words, lines, env.text(ctx.first_out), env.text(ctx.cont_out), breaks)
+            WC.read_lines(words, lines, env.text(ctx.first_out), env.text(ctx.cont_out), breaks, glued)
         except WC.Mismatch as m:
             env.prove(False, f"atomic:{m.kind}", {"why": str(m), "out": out})
             return out
